@@ -135,7 +135,7 @@ class Proxy:
         return cls._cls(inner)
 
 
-_OBS = {"flat": 0}
+_OBS = {"flat": 0, "rows": 4}
 
 
 def install_observers():
@@ -152,6 +152,7 @@ def install_observers():
     def wrapped(Y, P, Q, n_points):
         try:
             n = int(n_points)
+            _OBS["rows"] = n
             if n >= 2:
                 Z = np.asarray(Y[:n], dtype=float)
                 sv = np.linalg.svd(Z - Z.mean(0), compute_uv=False)
